@@ -379,6 +379,9 @@ def build(unit_dir, repo, mode="verify", mutate=None):
             if mm: sp["from"] = mm.group(1)
             mm = re.search(r'until="([^"]+)"', rest)
             if mm: sp["until"] = mm.group(1)
+            mm = re.search(r'wrap="([^"]+)"', rest)
+            if mm: sp["wrap"] = mm.group(1)
+            elif "wrap" in sp: del sp["wrap"]
             specs = [sp]
         else:
             raise UnitError(f"unknown template directive {d}")
